@@ -68,6 +68,12 @@ type Obligation struct {
 	Output  string
 }
 
+type callRec struct {
+	name   string
+	reach  Term
+	inLoop bool
+}
+
 type writeRec struct {
 	key string
 	idx string
@@ -114,24 +120,26 @@ type FuncVC struct {
 	// outside the subset, interface calls, non-scalar values wrapped in interfaces. Decided at the end of Generate.
 	assignRegions     []region
 	assignRegionsDone bool
-	bigCopyObls       []*Obligation
-	bigWrites         int
-	inBigCopy         bool
-	lemmasUsed        map[string]bool
-	discovery         int
-	ordCount          map[string]int
-	localDone         map[string]bool
-	assertsSeen       map[string]bool
-	allocs            map[string]*Val            // address-taken locals by source name
-	defBlock          map[string]*ssa.BasicBlock // block in which a named local was (last) bound
-	curBlock          *ssa.BasicBlock
-	curPos            token.Pos
-	localNames        map[string]bool
-	dcalls            []*delegCall
-	sites             []string
-	siteOrd           map[*ssa.Call]int    // ordinal of a call among the calls to the same callee, in source order
-	debugVals         map[string]SVal      // most recent value bound to a source-level local (go/ssa debug info)
-	bindings          map[string][]binding // all bindings of source-level locals, by defining block
+	// callLog: every call under contract in the real pass (callee, reach condition, whether the site is inside a loop)
+	callLog     []callRec
+	bigCopyObls []*Obligation
+	bigWrites   int
+	inBigCopy   bool
+	lemmasUsed  map[string]bool
+	discovery   int
+	ordCount    map[string]int
+	localDone   map[string]bool
+	assertsSeen map[string]bool
+	allocs      map[string]*Val            // address-taken locals by source name
+	defBlock    map[string]*ssa.BasicBlock // block in which a named local was (last) bound
+	curBlock    *ssa.BasicBlock
+	curPos      token.Pos
+	localNames  map[string]bool
+	dcalls      []*delegCall
+	sites       []string
+	siteOrd     map[*ssa.Call]int    // ordinal of a call among the calls to the same callee, in source order
+	debugVals   map[string]SVal      // most recent value bound to a source-level local (go/ssa debug info)
+	bindings    map[string][]binding // all bindings of source-level locals, by defining block
 }
 
 type loopHead struct {
